@@ -31,8 +31,8 @@ func init() {
 			{Name: "frame-cap-lifted", File: pkgCodec + "/decoder.go",
 				Old: "\tif length < 0 || length > MaximumFrameLength {", New: "\tif length < 0 {", Expect: "frame-bounded"},
 			{Name: "zlib-close-result-dropped", File: pkgCodec + "/decoder.go",
-			Old: "\treturn decompressed, d.zrd.Close()", New: "\t_ = d.zrd.Close()\n\treturn decompressed, nil", Expect: "inflate-status"},
-		{Name: "no-exact-size-probe", File: pkgCodec + "/decoder.go",
+				Old: "\treturn decompressed, d.zrd.Close()", New: "\t_ = d.zrd.Close()\n\treturn decompressed, nil", Expect: "inflate-status"},
+			{Name: "no-exact-size-probe", File: pkgCodec + "/decoder.go",
 				Old: "\tif n, _ := io.ReadFull(d.zrd, extra[:]); n != 0 {", New: "\tif n := len(extra) - 1; n != 0 {", Expect: "exact-size"},
 			{Name: "serverbound-cap-8mib", File: pkgCodec + "/decoder.go",
 				Old: "\tif d.direction == proto.ServerBound {\n\t\tmaxSize = ServerboundUncompressedCap\n\t}", New: "\tif d.direction == proto.ClientBound {\n\t\tmaxSize = ServerboundUncompressedCap\n\t}", Expect: "inflate-bounded"},
@@ -394,42 +394,7 @@ func reachAvoidingInstrs(from ssa.Instruction, stop func(ssa.Instruction) bool) 
 func runC01(c *Ctx) {
 	codecFns := c.P.Funcs(Mod + "/" + pkgCodec)
 	lc := NewLockCtx(c.P, codecFns)
-	// (1) fullReader
-	rdF := c.P.FieldVar(pkgCodec+":Decoder", "rd")
-	nSt := 0
-	for _, fn := range codecFns {
-		eachInstr(fn, func(in ssa.Instruction) {
-			st, ok := in.(*ssa.Store)
-			if !ok {
-				return
-			}
-			fa, ok := st.Addr.(*ssa.FieldAddr)
-			if !ok || !sameField(fieldOfAddr(fa), rdF) {
-				return
-			}
-			nSt++
-			a, isA := strip(st.Val).(*ssa.Alloc)
-			c.Check("full-reader", "Decoder.rd=@"+shortName(fn), in, isA && typeIs(a.Type(), "proto/codec", "fullReader"),
-				"the decoder's reader is not wrapped in fullReader: the frame body is read with a single Read, so payloads depend on how the TCP stream is chunked")
-		})
-	}
-	if nSt < 2 {
-		c.Undecided("full-reader", "Decoder.rd", fmt.Sprintf("expected ≥2 stores (constructor, SetReader), found %d", nSt))
-	}
-	if fr := c.MustFunc(pkgCodec + ":(*fullReader).Read"); fr != nil {
-		ok := false
-		for range callsIn(fr, func(nm string, cc *ssa.CallCommon) bool { return nm == "io.ReadFull" }) {
-			ok = true
-		}
-		c.CheckAt("full-reader", "fullReader.Read=io.ReadFull", c.P.Pos(fr.Pos()), ok, "fullReader.Read must read the whole buffer")
-	}
-	if rf := c.MustFunc(pkgCodec + ":readVarIntFrame"); rf != nil {
-		for _, cs := range lc.Callers[rf] {
-			a := cs.Instr.Common().Args[0]
-			c.Check("full-reader", "readVarIntFrame(d.rd)@"+shortName(cs.Caller), cs.Instr, strings.HasSuffix(PathOf(a), ".rd"),
-				"the frame reader must be fed the decoder's (full) reader")
-		}
-	}
+	checkFullReader(c, codecFns, lc)
 	// (3) guarded state
 	checkGuarded(c, lc, codecFns, GuardSpec{Type: pkgCodec + ":Encoder", Mutex: "mu", Fields: []string{"wr", "compression", "registry", "state"}})
 	checkGuarded(c, lc, codecFns, GuardSpec{Type: pkgCodec + ":Decoder", Mutex: "mu", Fields: []string{"rd", "compression", "compressionThreshold", "zrd"}})
@@ -446,7 +411,9 @@ func runC01(c *Ctx) {
 		}
 		// encoder: the "0 marker" write and the claimed-size write
 		var encUnc, encCmp token.Token
-		for _, ci := range callsIn(wc, func(nm string, cc *ssa.CallCommon) bool { return strings.HasSuffix(nm, "util.WriteVarIntN") || strings.HasSuffix(nm, "util.WriteVarInt") }) {
+		for _, ci := range callsIn(wc, func(nm string, cc *ssa.CallCommon) bool {
+			return strings.HasSuffix(nm, "util.WriteVarIntN") || strings.HasSuffix(nm, "util.WriteVarInt")
+		}) {
 			arg := ci.Common().Args[1]
 			if k, isK := constInt(arg); isK && k == 0 {
 				r := RangeAt(ci.Block(), func(v ssa.Value) bool { cl := callValue(v); return cl != nil && methodName(&cl.Call) == "Len" })
